@@ -84,17 +84,40 @@ def run(tier):
            "valid: outputs().enumerate() (indices 0..n-1)", "produces() of a valid transaction is %s, expected outputs enumerated" % src, f)
     ps = r.get("false", [])
     src = [c for _, p in ps for c in calls_in(p.ret)]
-    kid_calls = [flow.callee_name(t).split("::")[-1] for k in P.closure_children(f) for _, t in k.calls()]
-    expect("produces:false", len(ps) == 1 and "collateral_return" in src and "outputs" not in src and kid_calls[:2] == ["outputs", "len"],
-           "invalid: collateral_return paired with outputs().len()", "produces() of an invalid transaction is %s with index from %s, expected collateral_return at outputs().len()" % (src, kid_calls), f)
-    # the index of the pair really is outputs().len(): closure returns tuple (len, txo)
+    expect("produces:false", len(ps) == 1 and "collateral_return" in src and "enumerate" not in src,
+           "invalid: the collateral return only", "produces() of an invalid transaction is %s, expected the collateral return only" % src, f)
+    # the index of the pair really is outputs().len(): the closure returns the tuple (len, txo); the length may be computed
+    # inside the closure or captured from the enclosing function
+    def is_outputs_len(x):
+        while x[0] in ("ref", "deref", "cast"):
+            x = x[1]
+        return x[0] == "call" and x[1].endswith("::len") and any(s_[0] == "call" and s_[1].endswith("::outputs") for s_ in sym_walk(x))
+
+    def closure_env(parent, child):
+        for bi, si, st in parent.statements():
+            if st[0] == "a" and st[2]["k"] == "agg" and st[2].get("ak") == "closure" and st[2].get("def") == child.path:
+                return [parent.sym_operand(o) for o in st[2]["fields"]]
+        return []
+    n_pair = 0
     for k in P.closure_children(f):
-        ok = False
+        env = closure_env(f, k)
+        ok = None
         for p in tabulate(k, P, 16):
-            if p.end == "return" and p.ret is not None and p.ret[0] == "agg" and p.ret[1] == "tuple":
+            if p.end == "return" and p.ret is not None and p.ret[0] == "agg" and p.ret[1] == "tuple" and p.ret[3]:
                 first = p.ret[3][0]
-                ok = first[0] == "call" and first[1].endswith("::len") and any(s[0] == "call" and s[1].endswith("::outputs") for s in sym_walk(first))
+                ok = is_outputs_len(first)
+                if not ok:
+                    x = first
+                    while x[0] in ("ref", "deref", "cast"):
+                        x = x[1]
+                    if x[0] == "field" and str(x[2]).isdigit() and int(x[2]) < len(env):
+                        ok = is_outputs_len(env[int(x[2])])
+        if ok is None:
+            continue            # a closure that does not build the (index, output) pair
+        n_pair += 1
         expect("produces:false:index", ok, "pair index = outputs().len()", "the collateral return is not paired with outputs().len()", k)
+    if n_pair == 0:
+        expect("produces:false:index", False, "", "no closure of produces() pairs the collateral return with an index", f)
 
     # produces_at
     f = P.one(TX + r"produces_at$")
